@@ -3,12 +3,21 @@ import asyncio
 import selectors
 
 
+class Livelock(RuntimeError):
+    """the loop went round a very large number of times without the virtual clock moving and without finishing:
+    something is spinning (e.g. a wait on tasks that are already done)"""
+
+
+SPIN_LIMIT = 400000
+
+
 class VirtualTimeLoop(asyncio.SelectorEventLoop):
     def __init__(self, start=0.0):
         super().__init__(selectors.SelectSelector())
         self._vt = start
         self._orig_select = self._selector.select
         self._selector.select = self._vselect
+        self._spins = 0
 
     def time(self):
         return self._vt
@@ -16,6 +25,12 @@ class VirtualTimeLoop(asyncio.SelectorEventLoop):
     def _vselect(self, timeout=None):
         if timeout is not None and timeout > 0:
             self._vt += timeout
+            self._spins = 0
+        else:
+            self._spins += 1
+            if self._spins > SPIN_LIMIT:
+                self._spins = 0
+                raise Livelock(f"{SPIN_LIMIT} loop iterations at virtual time {self._vt} without progress")
         return self._orig_select(0)
 
 
@@ -30,7 +45,10 @@ def run_virtual(coro_fn, *args, **kwargs):
             for t in pending:
                 t.cancel()
             if pending:
-                loop.run_until_complete(asyncio.gather(*pending, return_exceptions=True))
+                try:
+                    loop.run_until_complete(asyncio.gather(*pending, return_exceptions=True))
+                except Livelock:
+                    pass
         finally:
             asyncio.set_event_loop(None)
             loop.close()
